@@ -29,7 +29,7 @@ E32 = 1.1920929e-07
 def gen_cases(tier, seed):
     rng = np.random.default_rng(seed + 61)
     cases = []
-    nrand = 3 if tier == "quick" else 50
+    nrand = 3 if tier == "quick" else 150
     for fam in zoo.ALL_FAMS:
         cfgs = zoo.configs([fam], tier, seed + 19, nrand)
         for ci, cfg in enumerate(cfgs):
@@ -40,11 +40,11 @@ def gen_cases(tier, seed):
     for i in range(6 if tier == "quick" else 150):
         cases.append({"kind": "bn_train", "F": 1 + i % 4, "offset": [0.0, 3.0, 10.0, 30.0][i % 4], "spread": [1.0, 0.1, 0.3][i % 3],
                       "seed": env.subseed(seed, "c19bn", i), "world": "f32", "cost": 1})
-    for i in range(20 if tier == "quick" else 600):
+    for i in range(20 if tier == "quick" else 2000):
         cases.append({"kind": "flow", "cfg": dzoo.sample_flow_cfg(rng), "seed": env.subseed(seed, "c19f", i), "world": "f32",
                       "cost": 3})
     # wide linear layers (a product of a few hundred diagonal entries leaves the float32 range; its log does not)
-    for i, fam in enumerate(["lu", "qr", "svd", "naive", "conv"] * (1 if tier == "quick" else 8)):
+    for i, fam in enumerate(["lu", "qr", "svd", "naive", "conv"] * (1 if tier == "quick" else 24)):
         cases.append({"kind": "wide_linear", "family": fam, "features": [256, 192, 300, 512][(i // 5 + i) % 4],
                       "seed": env.subseed(seed, "c19w", i), "world": "f32", "cost": 4})
     npts = 2000 if tier == "quick" else 100000
